@@ -264,11 +264,15 @@ def register(w):
         "raises": {"FuncADLIndexError": "any"},
         "ensures": ["good(result)", "same_kind(node, result)"],
         "abstract": True, "trusted": True,
-        "assumes": ["simplify_chained_calls.visit_Lambda (binder handling: renames parameters in "
-                    "place through lists aliased with a deep copy of the argument node, walks the "
-                    "argument stack's private frames) is outside the engine's term view: its "
-                    "contract `a Lambda of query shape with the same parameters count` is ASSUMED; "
-                    "its behaviour is exercised by the bounded checks of C02 / C18"],
+        "assumes": ["simplify_chained_calls.visit_Lambda (binder handling: walks the argument "
+                    "stack's private frames and the trees stored there, renames through "
+                    "make_args_unique, rebuilds the argument node from a deep copy) is ASSUMED to "
+                    "return a Lambda of query shape with the same number of parameters. An attempt "
+                    "to verify it (loop over the frames abstracted) discharged 299 of 323 "
+                    "obligations in 17 min; the remaining ones need well-formedness of a "
+                    "concatenation of three symbolic parameter lists, which the engine cannot "
+                    "derive; its behaviour is exercised by the bounded checks of C02 / C18, "
+                    "including the native evaluation of the hypothesis qs(result)"],
         "properties": ["C18"],
     })
     U = "func_adl/util_ast.py"
